@@ -33,6 +33,8 @@ CONFIGS = {
     "bph-C": [("C", "A", 5, ["N4", "C5", "C6", "N3", "C4"]), ("A", "A", 3, ["OP1", "OP2", "O5'"])],
     "bph-G3": [("G", "B", 2, ["N1", "N2", "C8", "N3", "C2"]), ("C", "A", 9, ["OP1", "OP2", "O5'"])],
     "bph-A": [("A", "B", 1, ["N6", "C2", "N1", "C6"]), ("G", "A", 1, ["OP2", "O2'"])],
+    # the residue that owns the phosphate / ribose oxygens comes first in the file (and in residue order), the donor base second
+    "br-first": [("U", "A", 2, ["OP1", "O2'"]), ("G", "A", 5, ["N1", "N2", "C8", "N3", "C2"])],
 }
 
 
